@@ -160,6 +160,44 @@ def run_tlc_replay(inst, name, vh_args, workers=8, timeout=1200, simulate=None):
     return r, json.load(open(res_path)), rc2
 
 
+def run_tlc_to_file(inst, name, workers=8, timeout=1200, simulate=None):
+    """TLC emitting instance; stdout saved to <dir>/tlc.out. Returns (stats, path)."""
+    cmd, d = tlc_cmd(inst, name, workers, simulate)
+    outp = os.path.join(d, "tlc.out")
+    t = time.time()
+    with open(outp, "w") as f:
+        try:
+            subprocess.run(cmd, cwd=TLA, stdout=f, stderr=subprocess.STDOUT, timeout=timeout)
+        except subprocess.TimeoutExpired:
+            raise ToolError("TLC timed out on instance %s after %ds" % (name, timeout))
+        finally:
+            shutil.rmtree(os.path.join(d, "states"), ignore_errors=True)
+    # statistics are in the non-REPLAY lines
+    tail = subprocess.run("grep -v '^<<\"REPLAY\"' %s | tail -60" % outp, shell=True, capture_output=True, text=True).stdout
+    r = parse_tlc(tail)
+    r["wall_s"] = round(time.time() - t, 1)
+    r["tail"] = tail[-2000:]
+    if simulate is None and not r["ok"]:
+        log(tail[-3000:])
+        if r["violated"]:
+            raise ToolError("specification instance %s violates invariant %s (model error, not a verdict about the code)" % (name, r["violated"]))
+        raise ToolError("TLC failed on emitting instance %s: %s" % (name, r["error"]))
+    return r, outp, d
+
+
+def nth_replay_line(path, n):
+    """n-th (1-based) REPLAY line of a TLC output file, decoded."""
+    k = 0
+    with open(path) as f:
+        for line in f:
+            if line.startswith('<<"REPLAY", '):
+                k += 1
+                if k == n:
+                    lit = line.rstrip("\n")[len('<<"REPLAY", '):-2]
+                    return json.loads(json.loads(lit))
+    return None
+
+
 def load_known():
     if not os.path.exists(KNOWN):
         return []
